@@ -61,7 +61,7 @@ func ResolveEngine(p *core.Program, r *core.Report) *EngineInfo {
 		purges := false
 		ast.Inspect(m.Decl.Body, func(n ast.Node) bool {
 			if call, ok := n.(*ast.CallExpr); ok {
-				if fn := core.Callee(m.Pkg.TypesInfo, call); fn != nil && fn.Name() == "Purge" && fn.Pkg() != nil && strings.Contains(fn.Pkg().Path(), "golang-lru") {
+				if fn := core.Callee(m.Pkg.TypesInfo, call); fn != nil && core.RefName(fn) == "Purge" && fn.Pkg() != nil && strings.Contains(fn.Pkg().Path(), "golang-lru") {
 					purges = true
 				}
 			}
@@ -348,7 +348,7 @@ func CacheInvalidation(p *core.Program, r *core.Report) {
 	}
 	var rs []string
 	for f := range ei.ReadSet {
-		rs = append(rs, f.Name())
+		rs = append(rs, core.RefName(f))
 	}
 	sort.Strings(rs)
 	r.Anchor("E4a read set of CheckIfAllowed (computed): " + strings.Join(rs, ", "))
@@ -376,7 +376,7 @@ func CacheInvalidation(p *core.Program, r *core.Report) {
 		for f := range byField {
 			fields = append(fields, f)
 		}
-		sort.Slice(fields, func(i, j int) bool { return fields[i].Name() < fields[j].Name() })
+		sort.Slice(fields, func(i, j int) bool { return core.RefName(fields[i]) < core.RefName(fields[j]) })
 		for _, fld := range fields {
 			ei.checkWriter(fd, fld, byField[fld], fld == podsField, r)
 		}
@@ -390,7 +390,7 @@ const (
 
 func (ei *EngineInfo) checkWriter(fd *core.FuncDecl, fld *types.Var, writes []stateWrite, allowPodGranular bool, r *core.Report) {
 	info := fd.Pkg.TypesInfo
-	construct := fmt.Sprintf("%s writes %s", fd.Key(), fld.Name())
+	construct := fmt.Sprintf("%s writes %s", fd.Key(), core.RefName(fld))
 	isInval := func(call *ast.CallExpr) bool {
 		fn := core.Callee(info, call)
 		if fn == nil {
@@ -481,7 +481,7 @@ func (ei *EngineInfo) checkWriter(fd *core.FuncDecl, fld *types.Var, writes []st
 		nBad++
 		r.Bad("E4a", c, b.pos,
 			fmt.Sprintf("state read by CheckIfAllowed (%s) is written (%s) and the function returns at %s (`%s`) without invalidating the result cache: a result cached before this update can be served after it (an error return counts: the state stays changed)",
-				fld.Name(), strings.Join(kinds, ", "), b.pos, b.desc),
+				core.RefName(fld), strings.Join(kinds, ", "), b.pos, b.desc),
 			"entry: "+fd.Key(), "write: "+strings.Join(kinds, ", "), "return without invalidation: "+b.pos)
 	}
 	if nBad == 0 {
@@ -617,7 +617,7 @@ func SortedTypestate(p *core.Program, r *core.Report) {
 			if rs, ok := n.(*ast.RangeStmt); ok {
 				if f2 := core.FieldOf(fd.Pkg.TypesInfo, rs.X); f2 == fld {
 					nReaders++
-					r.OK("E4b-reader", fd.Key()+" scans "+fld.Name()+" in order", p.Pos(rs.Pos()), "order-dependent reader found (first match wins); relies on the sorted state")
+					r.OK("E4b-reader", fd.Key()+" scans "+core.RefName(fld)+" in order", p.Pos(rs.Pos()), "order-dependent reader found (first match wins); relies on the sorted state")
 				}
 			}
 			return true
@@ -631,7 +631,7 @@ func SortedTypestate(p *core.Program, r *core.Report) {
 		info := fd.Pkg.TypesInfo
 		ast.Inspect(fd.Decl.Body, func(n ast.Node) bool {
 			if call, ok := n.(*ast.CallExpr); ok && len(call.Args) > 0 {
-				if fn := core.Callee(info, call); fn != nil && fn.Pkg() != nil && (fn.Pkg().Path() == "sort" || fn.Pkg().Path() == "slices") && strings.HasPrefix(fn.Name(), "S") {
+				if fn := core.Callee(info, call); fn != nil && fn.Pkg() != nil && (fn.Pkg().Path() == "sort" || fn.Pkg().Path() == "slices") && strings.HasPrefix(core.RefName(fn), "S") {
 					if f2 := FieldBehind(fd, call.Args[0]); f2 == fld {
 						sorters[fd.Obj] = true
 					}
@@ -641,7 +641,7 @@ func SortedTypestate(p *core.Program, r *core.Report) {
 		})
 	}
 	if len(sorters) == 0 {
-		r.Lost("E4b", "a function of package eval that sorts "+fld.Name())
+		r.Lost("E4b", "a function of package eval that sorts "+core.RefName(fld))
 		return
 	}
 	for s := range sorters {
@@ -751,13 +751,13 @@ func SortedTypestate(p *core.Program, r *core.Report) {
 		if !fd.Obj.Exported() {
 			if hasAppend {
 				if _, b := breaks[fd.Obj]; !b {
-					r.OK("E4b", fd.Key()+" adds to "+fld.Name(), p.Pos(fd.Decl.Pos()), "the addition is followed by the priority sort on every normal return of the function")
+					r.OK("E4b", fd.Key()+" adds to "+core.RefName(fld), p.Pos(fd.Decl.Pos()), "the addition is followed by the priority sort on every normal return of the function")
 				}
 			}
 			continue
 		}
 		if wit, b := breaks[fd.Obj]; b {
-			r.Bad("E4b", fd.Key()+" can return with "+fld.Name()+" unsorted", p.Pos(fd.Decl.Pos()),
+			r.Bad("E4b", fd.Key()+" can return with "+core.RefName(fld)+" unsorted", p.Pos(fd.Decl.Pos()),
 				"an admin network policy is added and the exported entry returns normally without the priority sort having run: the first-match query loops then scan the policies in insertion order, not priority order",
 				"entry: "+fd.Key(), "cause: "+wit)
 		} else if hasAppend || reachesAny(p, fd, func(g *types.Func) bool {
@@ -774,7 +774,7 @@ func SortedTypestate(p *core.Program, r *core.Report) {
 			})
 			return found
 		}) {
-			r.OK("E4b", fd.Key()+" keeps "+fld.Name()+" sorted", p.Pos(fd.Decl.Pos()), "every normal return after an addition has passed the priority sort")
+			r.OK("E4b", fd.Key()+" keeps "+core.RefName(fld)+" sorted", p.Pos(fd.Decl.Pos()), "every normal return after an addition has passed the priority sort")
 		}
 	}
 	r.RuleCounts["E4b-writer"] = nWriters
